@@ -133,6 +133,8 @@ func init() {
 		}
 		o["size0"] = c18Size(sel.Condition)
 		steps := make([]interface{}, 0, 4)
+		var prevCopy *influxql.SelectStatement
+		var prevStep M
 		for _, w := range list(c["wins"]) {
 			win := obj(w)
 			start, end := c18Instant(m, win["s"]), c18Instant(m, win["e"])
@@ -169,6 +171,27 @@ func init() {
 				} else {
 					st["skp"] = c18Skeleton(back, m)
 				}
+			}
+			// a second statement: a copy taken now keeps this window when the original gets the next one (copy_later is
+			// filled in at the next call), and the original keeps it when the copy gets another window
+			if sel.Condition != nil {
+				if prevCopy != nil && prevStep != nil && prevCopy.Condition != nil {
+					prevStep["copy_later"] = prevCopy.Condition.String()
+				}
+				var cp, cp2 *influxql.SelectStatement
+				if p := guard(func() {
+					cp, cp2 = sel.Clone(), sel.Clone()
+					_ = cp2.SetTimeRange(end, end.Add(time.Hour))
+				}); p != "" {
+					st["panic"] = "copy: " + p
+					steps = append(steps, st)
+					break
+				}
+				if cp.Condition != nil {
+					st["copy_cond"] = cp.Condition.String()
+				}
+				st["cond_after_copy"] = sel.Condition.String()
+				prevCopy, prevStep = cp, st
 			}
 			steps = append(steps, st)
 		}
